@@ -66,6 +66,9 @@ type logSpec struct {
 	Eon int64  `json:"eon"`
 	Id  int    `json:"id"`
 	Blk uint64 `json:"blk"`
+	// Val (hex) is the value at the place the trigger's predicate refers to; the log is laid
+	// out accordingly (refmatch.go buildLog). Ignored for a trigger without predicate.
+	Val string `json:"val,omitempty"`
 }
 
 // opSpec is one operation of a history. K selects the kind:
@@ -107,6 +110,7 @@ type opSpec struct {
 	Decodable bool      `json:"decodable,omitempty"`
 	Ids       []int     `json:"ids,omitempty"`
 	UBlk      uint64    `json:"ublk,omitempty"`
+	Pred      *predSpec `json:"pred,omitempty"`    // regevent: the predicate of the trigger definition (nil: contract only)
 	Derived   bool      `json:"derived,omitempty"` // inserted by Auto handling, not part of the input
 	TSet      int64     `json:"tset,omitempty"`    // derived handle: the keyper set the trigger was sent for
 	HasTSet   bool      `json:"has_tset,omitempty"`
@@ -521,7 +525,7 @@ func (h *hist) exec(op opSpec) stepObs {
 		return db(err)
 	case "regevent":
 		p, s := evParts(op.Id)
-		def := (&shutterservice.EventTriggerDefinition{Contract: trigAddr(op.Eon, op.Id)}).MarshalBytes()
+		def := triggerDefinition(op.Eon, op.Id, op.Pred).MarshalBytes()
 		_, err := w.sdb.InsertEventTriggerRegisteredEvent(ctx, servicedatabase.InsertEventTriggerRegisteredEventParams{
 			BlockNumber: op.Blk, BlockHash: zeroHash32, TxIndex: 0, LogIndex: 0, Eon: op.Eon,
 			IdentityPrefix: p, Sender: s, Definition: def, ExpirationBlockNumber: op.Exp, Identity: idBytes(op.Id),
@@ -536,8 +540,9 @@ func (h *hist) exec(op opSpec) stepObs {
 	case "fetch":
 		var logs []types.Log
 		for i, l := range op.Logs {
+			topics, data, _ := h.logShape(l)
 			logs = append(logs, types.Log{
-				Address: trigAddr(l.Eon, l.Id), Topics: []common.Hash{}, Data: []byte{},
+				Address: trigAddr(l.Eon, l.Id), Topics: topics, Data: data,
 				BlockNumber: l.Blk, BlockHash: common.BytesToHash(ethcrypto.Keccak256([]byte(fmt.Sprint("b", l.Blk)))),
 				TxHash: common.BytesToHash(ethcrypto.Keccak256([]byte(fmt.Sprint("t", l.Blk, i)))), TxIndex: 0, Index: uint(i),
 			})
@@ -638,6 +643,73 @@ func (h *hist) exec(op opSpec) stepObs {
 	panic("unknown op kind " + op.K)
 }
 
+// triggerDefinition builds the definition registered for (set, identity label): the trigger's
+// own contract and at most one predicate.
+func triggerDefinition(eon int64, id int, p *predSpec) *shutterservice.EventTriggerDefinition {
+	d := &shutterservice.EventTriggerDefinition{Contract: trigAddr(eon, id)}
+	if p == nil {
+		return d
+	}
+	vp := shutterservice.ValuePredicate{}
+	switch p.Op {
+	case "lt":
+		vp.Op = shutterservice.UintLt
+	case "lte":
+		vp.Op = shutterservice.UintLte
+	case "eq":
+		vp.Op = shutterservice.UintEq
+	case "gt":
+		vp.Op = shutterservice.UintGt
+	case "gte":
+		vp.Op = shutterservice.UintGte
+	case "beq":
+		vp.Op = shutterservice.BytesEq
+	default:
+		panic("bad operator " + p.Op)
+	}
+	if p.Op == "beq" {
+		vp.ByteArgs = [][]byte{p.byteArg()}
+	} else {
+		vp.IntArgs = []*big.Int{p.intArg()}
+	}
+	d.LogPredicates = []shutterservice.LogPredicate{{
+		LogValueRef:    shutterservice.LogValueRef{Dynamic: p.Ref == "dynamic", Offset: p.Off},
+		ValuePredicate: vp,
+	}}
+	return d
+}
+
+// logShape lays a planned log out for the predicate its trigger currently has (driver's
+// bookkeeping) and says whether it matches by the reference matcher.
+func (h *hist) logShape(l logSpec) ([]common.Hash, []byte, bool) {
+	var p *predSpec
+	if reg := h.book.ev[evKey(l.Eon, idBytes(l.Id))]; reg != nil {
+		p = reg.pred
+	}
+	v, err := hex.DecodeString(l.Val)
+	if err != nil {
+		panic(err)
+	}
+	topics, data := buildLog(p, v)
+	return topics, data, refMatches(p, topics, data)
+}
+
+// modelOp is the operation as the model sees it: the logs of a fetch are the MATCHING logs
+// (the model's OpFetch takes "a log that matches the trigger's definition" as given).
+func (h *hist) modelOp(op opSpec) opSpec {
+	if op.K != "fetch" {
+		return op
+	}
+	m := op
+	m.Logs = nil
+	for _, l := range op.Logs {
+		if _, _, ok := h.logShape(l); ok {
+			m.Logs = append(m.Logs, l)
+		}
+	}
+	return m
+}
+
 // ---------------------------------------------------------------------------------------
 // running a history
 
@@ -687,6 +759,7 @@ func (w *world) runHist(run *vh.Run, c histCase) {
 			if panicked, pmsg := vh.Guard(func() { ob = h.exec(op) }); panicked {
 				ob = stepObs{Out: "anomaly", Anomaly: "panic while executing the operation: " + pmsg}
 			}
+			mop := h.modelOp(op)
 			h.judge(op, ob)
 			executed = append(executed, op)
 			run.Dist["op:"+op.K]++
@@ -694,7 +767,7 @@ func (w *world) runHist(run *vh.Run, c histCase) {
 				run.Dist["anomaly"]++
 				run.Tie(fmt.Sprintf("history %q op %d (%s): %s", c.Name, len(executed)-1, op.K, ob.Anomaly))
 			}
-			steps = append(steps, "("+op.coq()+", mkObs "+ob.coqOut()+" "+w.stateTerm(h.kpr)+")")
+			steps = append(steps, "("+mop.coq()+", mkObs "+ob.coqOut()+" "+w.stateTerm(h.kpr)+")")
 			if op.K == "block" && c.Auto {
 				for _, t := range ob.Triggers {
 					set, ok := h.setOfTrigger(t)
